@@ -153,6 +153,15 @@ def run(ck, F, E):
                 nm = call_names_deep(ob, v)
                 if "evaluate_expression" in nm or "try_from" in nm or "try_into" in nm:
                     ok = True
+                # ... or through a helper of the fork (`evaluate_numeric_expression`): an evaluation of its own, distinct from the
+                # ones that feed the limit and the step
+                mine = {id(x[3]) for x in expr_calls(v) if len(x) > 3 and x[3] is not None and x[1].split("::")[-1].startswith("evaluate_")}
+                others = set()
+                for sc in fe.calls_to("Program::start_loop"):
+                    for a in sc.args[1:]:
+                        others |= {id(x[3]) for x in expr_calls(fe.expr(a)) if len(x) > 3 and x[3] is not None}
+                if mine and not (mine & others):
+                    ok = True
         ck.require(ok and len(sets) == 1, "C03:FOR:initial-value", "limit and step fixed at entry", "the loop variable is set to the FROM value (once)",
                    "neither start_loop nor the FOR handler assigns the FROM value to the loop variable exactly once (%d assignments)" % len(sets), sl.span)
     if fe is not None:
